@@ -3,6 +3,7 @@ import Driver.Pure
 import Driver.MachineIO
 import Driver.ThreadsIO
 import Driver.GLoopIO
+import Driver.ObjectsIO
 
 open Lean Driver
 
@@ -15,7 +16,8 @@ def handle (line : String) : String :=
     | .ok op =>
       let r := match pureOp op j with
         | some r => some r
-        | none => if op = "machine" then some (opMachine j) else if op = "threads" then some (opThreads j) else if op = "gflat" then some (opGFlat j) else none
+        | none => if op = "machine" then some (opMachine j) else if op = "threads" then some (opThreads j) else if op = "gflat" then some (opGFlat j)
+          else if op = "tm" then some (opTM j) else if op = "sstack" then some (opSStack j) else none
       match r with
       | some (.ok r) => r.compress
       | some (.error e) => (Json.mkObj [("fatal", e)]).compress
